@@ -539,7 +539,7 @@ def compare_run(run, owned):
             tags = [] if r.impl == r.model else ['cfg.restart']
         elif r.ws[0] == 'dircheck':
             tags = [] if r.impl == r.model else ['cfg.dir']
-        elif r.ws[0] in ('req', 'prefill', 'seq', 'illegal', 'fault', 'crash', 'pool', 'xhttp'):
+        elif r.ws[0] in ('req', 'prefill', 'seq', 'illegal', 'fault', 'crash', 'pool', 'xhttp', 'xcmp'):
             tags = []
         elif r.ws[0] == 'http':
             tags = http_field_diffs(r)
